@@ -75,7 +75,7 @@ class HarnessBuild:
         cfile = os.path.join(self.work, 'gen%s.c' % tag)
         rep = os.path.join(self.work, 'report%s.json' % tag)
         tspec = {'replace': sp.get('replace', {}), 'c_include': [os.path.join(self.dir, c) if not os.path.exists(os.path.join(P.RT, c)) else c for c in sp.get('c_include', [])],
-                 'rt_provided': sp.get('rt_provided', []), 'c_defines': sp.get('c_defines', {}), 'no_dynamic_init': sp.get('no_dynamic_init', []), 'typed_alloc': sp.get('typed_alloc', False), 'allow_unmatched': sp.get('allow_unmatched', False)}
+                 'rt_provided': sp.get('rt_provided', []), 'c_defines': sp.get('c_defines', {}), 'no_dynamic_init': sp.get('no_dynamic_init', []), 'typed_alloc': sp.get('typed_alloc', False), 'zero_allocas': sp.get('zero_allocas', False), 'allow_unmatched': sp.get('allow_unmatched', False)}
         P.translate(ll, entries, tspec, cfile, rep, sp.get('scale'))
         self.times['ir2c'] = round(time.time() - t0, 2)
         report = json.load(open(rep))
